@@ -119,9 +119,14 @@ static Result run_range(const json &c) {
         r.fail("RangeParser/zero-stride", "'" + expr + "' (zero stride) is accepted and does not terminate");
       break;
     case RefRange::WRONG_DIRECTION:
+      // a block whose stride points away from its end denotes no integer: it is rejected (what the code does) or,
+      // if accepted, must contribute nothing
       r.cls("wrong-direction");
       if (E.accepted && !E.terminated)
         r.fail("RangeParser/nontermination", "'" + expr + "' accepted and does not terminate");
+      else if (E.accepted && E.seq != R.seq)
+        r.fail("RangeParser/wrong-direction-enumerated", "'" + expr + "' (" + R.why + ") accepted and enumerates " + show(E.seq) +
+                                                              ", denotes " + show(R.seq));
       break;
     case RefRange::MUST_REJECT:
       r.cls("malformed");
